@@ -3,6 +3,8 @@ package nfs41sim
 import (
 	"bytes"
 	"fmt"
+	"sort"
+	"strings"
 	"time"
 
 	"github.com/buildbarn/go-xdr/pkg/protocols/nfsv4"
@@ -170,6 +172,9 @@ func (w *world) doCreateSession(inc *incM, kind string) *sessM {
 			// RFC 8881 section 18.36.4: nothing to replay yet.
 			expect(nfsv4.NFS4ERR_SEQ_MISORDERED)
 		} else {
+			if seq >= ^uint32(0)-1 || seq == 0 {
+				w.label("create_session_replay_at_wrap_around")
+			}
 			if !bytes.Equal(c.raw, inc.lastCS.raw) {
 				w.failf("C19: the replay of CREATE_SESSION(%s) was answered with a reply that differs from the original one (original status %s, replay status %s)", inc, shortStatus(inc.lastCS.res.Status), shortStatus(st))
 			}
@@ -204,6 +209,14 @@ func (w *world) doCreateSession(inc *incM, kind string) *sessM {
 		inc.nextCSSeq++
 		inc.lastCS = c
 		w.label("create_session_ok")
+		if seq == 0 || seq == ^uint32(0) {
+			w.label("create_session_sequence_at_wrap_around")
+		}
+		if inc.nextCSSeq == 0 || inc.nextCSSeq == 1 {
+			// The next one, its replay (sequence - 1) and the misordered
+			// variants straddle 2^32.
+			w.label("create_session_sequence_wrapped")
+		}
 		w.setOut(sess.String())
 	}
 	if kind != "next" && mode != "exec" && swept == 0 {
@@ -299,6 +312,21 @@ func falseRetryDetectable(orig *call, ops []nfsv4.NfsArgop4) bool {
 	return false
 }
 
+// falseRetryDetectableFull is the same rule applied to the complete reply
+// of orig, which is what a duplicate that waited for orig receives.
+func falseRetryDetectableFull(orig *call, ops []nfsv4.NfsArgop4) bool {
+	results := orig.res.Resarray[1:]
+	if len(results) > len(ops) || (orig.res.Status == nfsv4.NFS4_OK && len(results) != len(ops)) {
+		return true
+	}
+	for i, r := range results {
+		if ty := r.GetResop(); ty != ops[i].GetArgop() && ty != nfsv4.OP_ILLEGAL {
+			return true
+		}
+	}
+	return false
+}
+
 // sendSeq issues SEQUENCE + template on (sess, slot) with the given
 // sequence ID and lets the model decide what must happen.
 func (w *world) sendSeq(sess *sessM, slot, seq uint32, class string, t *tmpl, cache bool, plan map[string]bool, orig *call) *call {
@@ -307,6 +335,11 @@ func (w *world) sendSeq(sess *sessM, slot, seq uint32, class string, t *tmpl, ca
 	for _, k := range []string{"io", "open_before", "open_after"} {
 		if plan[k] {
 			planDesc += " park:" + k
+		}
+	}
+	for _, k := range sortedBoolKeys(plan) {
+		if strings.HasPrefix(k, "fault:") {
+			planDesc += " " + k
 		}
 	}
 	cacheDesc := ""
@@ -359,7 +392,10 @@ func (w *world) sendSeq(sess *sessM, slot, seq uint32, class string, t *tmpl, ca
 
 	var before snapshot
 	checkUnchanged := c.mode != "exec" && swept == 0
-	if checkUnchanged {
+	// Requests that are executed but documented to be refused before
+	// they touch anything (unsupported claims, share_deny).
+	checkRefused := c.mode == "exec" && t.noEffect && swept == 0
+	if checkUnchanged || checkRefused {
 		before = w.snapshot()
 	}
 	if c.mode == "exec" {
@@ -383,7 +419,79 @@ func (w *world) sendSeq(sess *sessM, slot, seq uint32, class string, t *tmpl, ca
 			w.failf("C19: request %q (%s, expected to be answered without execution: %s) had side effects: %s", t.desc, class, c.mode, d)
 		}
 	}
+	if checkRefused && c.collected {
+		if d := before.diff(w.snapshot()); d != "" {
+			w.failf("C18: request %q is refused as a whole (%s), but it had side effects: %s", t.desc, statusOf(c.res), d)
+		}
+		w.label("refused_without_side_effects:" + t.kind)
+	}
 	return c
+}
+
+func sortedBoolKeys(m map[string]bool) []string {
+	keys := make([]string, 0, len(m))
+	for k := range m {
+		keys = append(keys, k)
+	}
+	sort.Strings(keys)
+	return keys
+}
+
+// faultOps: the operations in which a fault site can be reached.
+var faultOps = map[string][]nfsv4.NfsOpnum4{
+	"openself":  {nfsv4.OP_OPEN, nfsv4.OP_READ, nfsv4.OP_WRITE},
+	"openchild": {nfsv4.OP_OPEN},
+	"newfile":   {nfsv4.OP_OPEN},
+	"read":      {nfsv4.OP_READ},
+	"write":     {nfsv4.OP_WRITE},
+	"setattr":   {nfsv4.OP_SETATTR},
+}
+
+var faultNFSStatus = map[string]nfsv4.Nfsstat4{
+	"io":     nfsv4.NFS4ERR_IO,
+	"access": nfsv4.NFS4ERR_ACCESS,
+	"noent":  nfsv4.NFS4ERR_NOENT,
+}
+
+// applyFault adjusts the expectation of a request in which an injected
+// fault fired: the first operation that can reach the site fails with the
+// NFSv4 equivalent of the injected status and the COMPOUND ends there;
+// everything before it is as predicted.
+func (w *world) applyFault(c *call) {
+	w.mu.Lock()
+	site, status := c.faultFired, c.faultStatus
+	var unreached []string
+	for _, k := range sortedBoolKeys(c.plan) {
+		if strings.HasPrefix(k, "fault:") {
+			unreached = append(unreached, k)
+		}
+	}
+	w.mu.Unlock()
+	if len(unreached) > 0 {
+		w.label("fault_planned_but_site_not_reached")
+	}
+	if site == "" {
+		return
+	}
+	t := c.t
+	for i, op := range t.ops {
+		hit := false
+		for _, o := range faultOps[site] {
+			if op.GetArgop() == o {
+				hit = true
+			}
+		}
+		if !hit {
+			continue
+		}
+		if i < len(t.expect) {
+			t.expect = append(t.expect[:i:i], one(faultNFSStatus[status]))
+		}
+		break
+	}
+	w.label("fault_fired")
+	w.label("fault_fired:" + site + ":" + status)
+	w.label("fault_fired_in:" + t.kind)
 }
 
 func seqResult(res *nfsv4.Compound4res) (*nfsv4.Sequence4resok, nfsv4.Nfsstat4, bool) {
@@ -536,6 +644,7 @@ func (w *world) finishExec(c *call) {
 		w.failf("C19: SEQUENCE result %+v does not echo session/slot/sequence of the request (slot %d seq %d)", *ok, c.slot, c.seq)
 	}
 	results := res.Resarray[1:]
+	w.applyFault(c)
 	// The compound stops at the first failing operation; t.expect lists
 	// the acceptable statuses of every operation up to the first one that
 	// cannot succeed.
@@ -590,6 +699,9 @@ func (w *world) finishExec(c *call) {
 		t.onDone(c, results)
 	}
 	w.label("exec:" + t.kind)
+	if w.p.labelErrorReturns && last != nfsv4.NFS4_OK {
+		w.label("error_return:" + opName(results[len(results)-1].GetResop()) + ":" + shortStatus(last))
+	}
 
 	// Duplicates that arrived while this request was being processed
 	// must now complete with this request's result.
@@ -608,6 +720,23 @@ func (w *world) finishExec(c *call) {
 			w.label("false_retry_inflight_rejected")
 			continue
 		}
+		if d.mayFalse && falseRetryDetectableFull(c, d.t.ops) {
+			// The original's reply does not even have the shape of a
+			// reply to this request (number or types of operations): the
+			// replay branch refuses exactly this once the original has
+			// completed.
+			w.label("false_retry_inflight_with_different_operations")
+			if w.p.strictInflightFalseRetry {
+				if ok, _ := replayAcceptable(c, d.raw, d.res); ok {
+					w.failf("C19: request %q reused slot %d sequence %d of %q, which was still being processed, with a different operation list (the operations of the reply do not match those of the request) and was answered with the other request's reply %s", d.desc, c.slot, c.seq, c.desc, statusOf(d.res))
+				}
+				if _, st, isSeq := seqResult(d.res); !isSeq || st == nfsv4.NFS4_OK || len(d.res.Resarray) != 1 {
+					w.failf("C19: request %q reused slot %d sequence %d of the in-flight %q with a different operation list and was answered %s, which is neither a refusal by SEQUENCE nor (rightly) the original's reply", d.desc, c.slot, c.seq, c.desc, statusOf(d.res))
+				}
+				w.label("false_retry_inflight_refused")
+				continue
+			}
+		}
 		if ok, _ := replayAcceptable(c, d.raw, d.res); !ok {
 			w.failf("C19: a duplicate of %q that arrived while the original was being processed completed with %s, but the original's result is %s", c.desc, statusOf(d.res), statusOf(res))
 		}
@@ -621,7 +750,7 @@ func (w *world) finishExec(c *call) {
 
 func propertyOf(kind string) string {
 	switch kind {
-	case "lock", "lockt", "locku":
+	case "lock", "lockt", "locku", "lock_probe":
 		return "C20"
 	}
 	return "C18"
@@ -633,4 +762,20 @@ func (w *world) doAdvance(d time.Duration) {
 	w.stepNo++
 	w.record("advance", d.String())
 	w.clk.advance(d)
+}
+
+var opNames = map[nfsv4.NfsOpnum4]string{
+	nfsv4.OP_CLOSE: "CLOSE", nfsv4.OP_FREE_STATEID: "FREE_STATEID", nfsv4.OP_GETFH: "GETFH", nfsv4.OP_LINK: "LINK",
+	nfsv4.OP_LOCK: "LOCK", nfsv4.OP_LOCKT: "LOCKT", nfsv4.OP_LOCKU: "LOCKU", nfsv4.OP_LOOKUP: "LOOKUP",
+	nfsv4.OP_OPEN: "OPEN", nfsv4.OP_OPEN_DOWNGRADE: "OPEN_DOWNGRADE", nfsv4.OP_PUTFH: "PUTFH", nfsv4.OP_PUTROOTFH: "PUTROOTFH",
+	nfsv4.OP_READ: "READ", nfsv4.OP_REMOVE: "REMOVE", nfsv4.OP_RENAME: "RENAME", nfsv4.OP_RESTOREFH: "RESTOREFH",
+	nfsv4.OP_SAVEFH: "SAVEFH", nfsv4.OP_SETATTR: "SETATTR", nfsv4.OP_WRITE: "WRITE", nfsv4.OP_TEST_STATEID: "TEST_STATEID",
+	nfsv4.OP_DESTROY_SESSION: "DESTROY_SESSION", nfsv4.OP_DESTROY_CLIENTID: "DESTROY_CLIENTID", nfsv4.OP_RECLAIM_COMPLETE: "RECLAIM_COMPLETE",
+}
+
+func opName(op nfsv4.NfsOpnum4) string {
+	if n, ok := opNames[op]; ok {
+		return n
+	}
+	return fmt.Sprintf("op%d", op)
 }
